@@ -10,6 +10,8 @@ def hx(b):
 # tree = ('s'|'e'|'i', bytes) | ('b', bytes|None) | ('a', [tree])
 def tree_text(t):
     k = t[0]
+    if k == 'na':
+        return "a[]"                     # a null array (*-1) is read as an empty array
     if k == 'a':
         return "a[" + ",".join(tree_text(e) for e in t[1]) + "]"
     if k == 'b' and t[1] is None:
@@ -20,6 +22,7 @@ def encode(t):
     """reference encoder written from the RESP2 specification (used only to build input streams and as a
     model-free oracle for C01/C02)."""
     k = t[0]
+    if k == 'na': return b"*-1\r\n"
     if k == 's': return b"+" + t[1] + b"\r\n"
     if k == 'e': return b"-" + t[1] + b"\r\n"
     if k == 'i': return b":" + t[1] + b"\r\n"
